@@ -241,6 +241,8 @@ impl Model for C04Model {
             Op::RollActivate { ca: c() },
             Op::Roa { ca: c(), add: vec![c01::ROA_A.into()], del: vec![] },
             Op::Roa { ca: c(), add: vec![], del: vec![c01::ROA_A.into()] },
+            // enough authorisations at once for aggregated ROAs (thresholds 2/2)
+            Op::Roa { ca: c(), add: vec![c01::ROA_B.into(), c01::ROA_C.into(), c01::ROA_D.into()], del: vec![] },
             Op::AspaSet { ca: c(), customer: 65000, providers: vec![65001] },
             Op::BgpsecAdd { ca: c(), asn: 65000, csr: 0 },
             Op::Restart,
